@@ -191,6 +191,9 @@ def check(ctx):
                 w = ('fn', 'sqrt', F.mc_variance(S_, Q_, N_))
             check_equal(ctx, 'R4.' + name, fsite(f), 'mc_result::%s()' % name, s.ret, w)
         ctx.guard('R4', fsite(f), r4)
+    counters_converted_before_combined(ctx, 'R4.no_integer_products', [p.one('hep::mc_result::value'),
+                                       p.one('hep::mc_result::variance'), p.one('hep::mc_result::error'),
+                                       p.one('hep::create_result')])
     for getter, field in (('calls', 'calls_'), ('non_zero_calls', 'non_zero_calls_'),
                           ('finite_calls', 'finite_calls_'), ('sum', 'sum_'),
                           ('sum_of_squares', 'sum_of_squares_')):
@@ -252,6 +255,30 @@ def check(ctx):
         ctx.guard('R5', fsite(f), r5)
     ctx.count('accumulator::result definitions', nres, 2)
     _shared(ctx)
+
+
+def counters_converted_before_combined(ctx, rule, funcs):
+    """The documented formulas are over the reals; a product (or sum) of two call counters formed in
+    std::size_t wraps for N > 2^32 before it is converted.  Necessary condition: in the functions
+    that evaluate the formulas no integer-typed `*` combines two non-literal operands."""
+    for f in funcs:
+        bad = []
+        for n in f.body.walk():
+            if n.op == 'bin' and n.a.get('o') == '*' and ir.is_int_type(n.ty):
+                a, b = n.k
+                if a.op != 'lit' and b.op != 'lit':
+                    bad.append(n)
+            if n.op == 'assign' and n.a.get('o') == '*=' and ir.is_int_type(n.k[0].ty) and n.k[1].op != 'lit':
+                bad.append(n)
+        if bad:
+            n = bad[0]
+            ctx.violation(rule, '%s:%s' % (n.where(), strip_targs(f.qualname).replace('hep::', '')),
+                          'two counters are multiplied as integers (%s) before the conversion to the numeric '
+                          'type: the product wraps around for N > 2^32 and the documented formula no longer '
+                          'holds' % ir.show(n)[:120],
+                          {'abstract_counterexample': 'calls = 5e9: calls*(calls-1) mod 2^64 instead of 2.5e19'})
+        else:
+            ctx.holds(rule, fsite(f), 'every counter is converted to the numeric type before it is multiplied')
 
 
 def _shared(ctx):
